@@ -81,8 +81,10 @@ def execute(acc, case):
         boundaries.append(t)
     chunks = segmentation(rng, len(stream), boundaries, case["seg"])
     sc = N.Scenario(seed=case["seed"], strategy=case["strategy"], p=case.get("p", 0.1), role=case["role"], apps=[16777251],
-                    lines=case["strategy"] != "rr", max_steps=case.get("max_steps", 600_000))
+                    lines=case["strategy"] != "rr", max_steps=case.get("max_steps", 600_000), transport=case.get("transport", "TCP"))
     delivered = []
+    if case.get("transport") == "SCTP":
+        acc.counters["sctp_executions"] += 1      # SctpClient/SctpServer over a fake pysctp module (bvm/vnet.py)
     wit = {"case": case, "chunks": chunks[:60], "kinds": kinds, "stream_len": len(stream)}
     with sc:
         try:
@@ -173,7 +175,7 @@ def execute(acc, case):
             acc.violation("decoder-non-terminating-in-worker", str(ex), wit)
         cov = sc.coverage()
     acc.evaluations += 1
-    acc.sigs.add(harness.sig_hash("%s/%s/%s" % (case["seg"].split("@")[0], case["strategy"], cov["schedule"])))
+    acc.sigs.add(harness.sig_hash("%s/%s/%s/%s" % (case["seg"].split("@")[0], case["strategy"], case.get("transport"), cov["schedule"])))
     acc.counters["steps"] += cov["steps"]
     acc.counters["switches"] += cov["switches"]
     acc.counters["line_events"] += cov["line_events"]
@@ -216,7 +218,7 @@ def plan(tier, seed):
         cases.append({"seed": seed * 100003 + i, "n": rng.choice([1, 2, 3, 5, 8, 20, 40]) if not q else rng.choice([1, 2, 3, 5, 8]),
                       "seg": rng.choice(modes), "strategy": strat, "p": rng.choice([0.02, 0.1, 0.3]),
                       "role": rng.choice(["client", "server"]), "settle": rng.random() < 0.7,
-                      "recv_cap": rng.choice([None, None, 1, 7, 64, 4096])})
+                      "recv_cap": rng.choice([None, None, 1, 7, 64, 4096]), "transport": rng.choice(["TCP", "TCP", "TCP", "SCTP"])})
     for i in range(2 if q else 40):
         cases.append({"seed": seed * 977 + i, "n": 4, "big": True, "seg": rng.choice(["whole", "random"]), "strategy": "rr",
                       "role": "client", "recv_cap": rng.choice([None, 65536])})
